@@ -1,19 +1,37 @@
 ----------------------------- MODULE MCReader -----------------------------
 (***************************************************************************)
-(* Role A for C03 (and the reader half of C02/C13): every byte string over *)
-(* Alphabet up to MaxLen, every requested type, both reader kinds.  The     *)
-(* input is grown by an action so that TLC's BFS is parallel.               *)
+(* Role A for C03 (and the reader half of C02/C13): the decoders and Skip  *)
+(* of Reader.tla on                                                        *)
+(*  (a) every byte string over Alphabet up to MaxLen (grown by an action   *)
+(*      so that TLC's BFS is parallel), and                                *)
+(*  (b) every single-byte substitution and every truncation of the         *)
+(*      encoding of every value of a small universe (grammar-aware         *)
+(*      mutants reaching lengths (a) cannot),                              *)
+(* for every requested type and both reader kinds.                         *)
+(* Role B: the reachable states (dumped with -dump) are the inputs that    *)
+(* the harness replays on the real decoders.                               *)
 (***************************************************************************)
-EXTENDS Reader, TLC
+EXTENDS WireUniverse
 
-CONSTANTS Alphabet, MaxLen, Types
+CONSTANTS Alphabet, MutAlphabet, MaxLen, Types, MutantsOn
 
-VARIABLE bs
+VARIABLES bs, kind
 
-Init == bs = <<>>
-Next == /\ Len(bs) < MaxLen
-        /\ \E b \in Alphabet : bs' = Append(bs, b)
-Spec == Init /\ [][Next]_bs
+Encs == { Enc(u) : u \in AllScalars \cup Depth1(1) \cup Depth2 }
+Subst(s, i, a) == SubSeq(s, 1, i-1) \o <<a>> \o SubSeq(s, i+1, Len(s))
+
+RInit == \/ bs = <<>> /\ kind = "grow"
+         \/ MutantsOn /\ bs \in Encs /\ kind = "base"
+
+Grow   == /\ kind = "grow" /\ Len(bs) < MaxLen
+          /\ \E b \in Alphabet : bs' = Append(bs, b)
+          /\ UNCHANGED kind
+Mutate == /\ kind = "base"
+          /\ \/ \E i \in 1..Len(bs), a \in MutAlphabet : bs' = Subst(bs, i, a)
+             \/ \E k \in 0..Len(bs) : bs' = SubSeq(bs, 1, k)
+          /\ kind' = "mut"
+RNext == Grow \/ Mutate
+RSpec == RInit /\ [][RNext]_<<bs, kind>>
 
 Lazy(t)   == DecLazy(bs, 1, t, 0, 0)
 Strict(t) == DecStrict(bs, 1, t, 0, 0)
@@ -26,4 +44,6 @@ InvLinear      == \A t \in Types :
                     /\ Linear(bs, Lazy(t), 4, 8, AllocThreshold)
                     /\ Linear(bs, Strict(t), 4, 4, AllocThreshold)
                     /\ \A seek \in BOOLEAN : Linear(bs, SkipAt(bs, 1, t, seek, 0), 4, 4, 0)
+\* anti-vacuity: some inputs do decode (checked to be VIOLATED by a dedicated cfg)
+NothingDecodes == \A t \in Types \ {TStruct} : ~(Len(bs) >= 5 /\ Lazy(t).ok)
 =============================================================================
